@@ -24,6 +24,9 @@ Fixpoint glob (fuel : nat) (p s : str) : bool :=
       | 42 :: p', c :: s' => glob n p' s || glob n p s'
       | 63 :: p', _ :: s' => glob n p' s'
       | 63 :: _, [] => false
+      (* backslash: the next pattern character stands for itself; a trailing backslash for itself *)
+      | 92 :: c :: p', b :: s' => (c =? b) && glob n p' s'
+      | 92 :: _ :: _, [] => false
       | a :: p', b :: s' => (a =? b) && glob n p' s'
       | _ :: _, [] => false
       end
